@@ -205,6 +205,8 @@ class World:
                 for n in win.dirty:
                     if under(p, n):
                         return "CRASH_THEN_TOUCH_NEW"
+            if op == "rename" and tree.is_dir(a[0]) and any(self.path_style):
+                return "CRASH_DIRMOVE_PATHSTYLE"
         if "PATH_REUSE" in H and occ & win.vac[s]:
             return "PATH_REUSE"
         if "DIRMOVE_ISOLATED" in H:
